@@ -176,3 +176,15 @@ def shrink_schedule(case):
         c = copy.deepcopy(case)
         c["schedule"]["evict"] = []
         yield c
+
+
+def extra_checks(tier, verif_seed, out):
+    """Model self-test against gcc -E (can only produce a harness error, never a violation)."""
+    from .. import gcccheck, runners
+
+    n = 60 if tier == "quick" else 2500
+    res = gcccheck.run(n, verif_seed, "c04")
+    out(f"[{PID}] model_vs_gcc: {res['tus']} TUs of {res['worlds']} worlds, {res['mismatches']} mismatches")
+    if res["mismatches"]:
+        raise runners.HarnessError(f"reference model disagrees with gcc: {res['examples'][:2]}")
+    return {"model_vs_gcc": {k: res[k] for k in ("worlds", "tus", "mismatches", "skipped")}}, []
